@@ -10,10 +10,14 @@ run_one() {
   id=$1; S=$2; P=${id%-*}; wt=$S/wt_$id
   git -C /repo worktree add -q --detach $wt HEAD 2>/dev/null || { echo "$id WORKTREE-FAILED"; return; }
   if ! git -C $wt apply /verif/seeded/$id/patch.diff 2>/dev/null; then echo "$id $P DOES-NOT-APPLY"; else
-    out=$(cd /verif && VERIF_REPO=$wt VERIF_OUT=$S/out_$id ./check $P --tier quick 2>&1); rc=$?
-    v=$(echo "$out" | grep -c '^VIOLATION')
-    if [ $rc -eq 1 ] && [ $v -gt 0 ]; then r=CAUGHT; elif [ $rc -eq 0 ]; then r=MISSED; else r="MACHINERY(rc=$rc)"; fi
-    echo "$id $P $r :: $(echo "$out" | grep '^VIOLATION' | head -1 | sed 's/.*key=//' | cut -c1-100)"
+    # the property it breaks first, then the other checks recorded in meta.json as catching it (C13-m3 is a polyroots defect: C19)
+    r=MISSED; by=""
+    for Q in $P $(python3 -c "import json;print(' '.join(x for x in json.load(open('/verif/seeded/$id/meta.json'))['caught_by'] if x != '$P'))"); do
+      out=$(cd /verif && VERIF_REPO=$wt VERIF_OUT=$S/out_$id ./check $Q --tier quick 2>&1); rc=$?
+      v=$(echo "$out" | grep -c '^VIOLATION')
+      if [ $rc -eq 1 ] && [ $v -gt 0 ]; then r=CAUGHT; by=$Q; break; elif [ $rc -ne 0 ]; then r="MACHINERY(rc=$rc)"; by=$Q; break; fi
+    done
+    echo "$id $P $r${by:+ by $by} :: $(echo "$out" | grep '^VIOLATION' | head -1 | sed 's/.*key=//' | cut -c1-100)"
   fi
   git -C /repo worktree remove --force $wt; rm -rf $S/out_$id
 }
